@@ -26,7 +26,14 @@ scanned / cache of an older tree / cache up to date); extra files in the cache d
 temp, backup names: 5 stems x 10 suffixes, plus every name the stopped scans really left), cache
 files with mtimes 10^k seconds in the past / future, the cache directory renamed away; each
 followed by two scans.  Streams (1)-(3) and (5) run under the four configurations the CLI can set up
-(verbose, repository), stream (4) draws the configuration per history and switches it inside."""
+(verbose, repository), stream (4) draws the configuration per history and switches it inside.
+Observation points: besides `scan_command(root)`, streams (2) and (3) and a share of (1) and (4) start the
+scan after the fault the way users do - the function typer calls for `codelimit scan`
+(`codelimit.__main__.scan`, in a forked child, without and with -v) and, for the junk texts and the
+faults on the top-level members, `python -m codelimit scan [-v] root` in a fresh interpreter.
+"A complete, valid cache": after EVERY scan the document left behind is compared field by field with the
+document a from-scratch scan of a copy of the tree writes - same keys at every level, same JSON types,
+same values, identifier and time stamp of the shape the writer produces (cache_real.full_shape)."""
 import json
 import os
 import sys
@@ -39,6 +46,7 @@ ID = "C10"
 TRUSTED = [
     "correspondence harness harness/props/C10.py + harness/cache_real.py (fault injection on the real cache file; abstraction function abstract_cache; rich output silenced by patching rich, not codelimit)",
     "stopped scans (stream 5): os.fork of the harness process, RLIMIT_FSIZE / SIGXFSZ or a sys.addaudithook that sends SIGKILL before the k-th open-for-writing / mkdir / remove / rename below the scanned root; what is left on disk is classified by abstract_cache; directory states the model has no word for (one marker file only) are checked by the oracles only and counted in distribution.oracle_only_histories",
+    "observation points 1 and 2: codelimit.__main__.scan called in a forked child of the harness / harness/cache_cli_worker.py (runpy of the module codelimit with sys.argv = scan [-v] root) in a fresh interpreter, Scanner._analyze_file wrapped in both; exclusions of observation point 2 go through <root>/.codelimit.yml (typer's --exclude does not work with the click of this sandbox); the field-by-field comparison of the cache left behind (cache_real.full_shape / shape_diff) takes the shape of identifier and time stamp from the document a from-scratch scan writes",
     "the byte contract (ByteContract: round trip, unreadable proper prefixes, whitespace cuts) is a hypothesis of truncated_write_harmless; it is checked at every explored offset on the real writer and reader, and proved for the JSON model under C08",
 ]
 ASSUMPTIONS = [
@@ -51,6 +59,23 @@ SMALL = [(0, 1)]
 LARGE = [(0, 3), (1, 2), (2, 3), (3, 3)]
 MEDIUM = [(0, 1), (2, 2)]
 OTHER_VALUES = [None, 7, 1.5, True, "", "x", [], [1], {}, {"k": 1}]
+# other values of the SAME JSON type for a number: beyond every machine range (a JSON integer literal of 401 digits
+# is legal and Python reads it exactly), the edges of 64 bits, negative, fractional; and as JSON text the literals
+# that json.dumps does not write - floats beyond the double range (read as infinity) and the NaN / Infinity words
+# Python's json accepts
+EXTREME_NUMBERS = [10 ** 400, -(10 ** 400), 2 ** 63, -1, 2.5]
+RAW_NUMBERS = ["1e400", "-1e400", "NaN", "Infinity", "-Infinity"]
+# minimised past failures (run first): F-overflow - "loc" beyond the float range in one file entry and a float in
+# another of the same language made ReportReader's totals raise OverflowError, which _read_cached_report did not
+# catch: every later scan failed until the cache was deleted (repaired in /repo 42e6654)
+REGRESS = [
+    {"init": [[0, 3], [1, 2], [2, 3], [3, 3]], "excl": 0, "cfg": 0,
+     "ops": [["s"], ["jset", ["codebase", "files", "a.py", "loc"], 10 ** 400],
+             ["jset", ["codebase", "files", "pkg/b.py", "loc"], 2.5], ["s"], ["s"]]},
+    {"init": [[0, 3], [1, 2], [2, 3], [3, 3]], "excl": 0, "cfg": 1, "entry": 1,
+     "ops": [["s"], ["jset", ["codebase", "files", "pkg/b.py", "loc"], 2.5],
+             ["jset", ["codebase", "files", "a.py", "loc"], 10 ** 400], ["s"], ["ent", 0], ["s"]]},
+]
 
 
 def jtype(v):
@@ -143,18 +168,98 @@ def json_paths(doc, prefix=()):
     return out
 
 
-def structural_faults(doc):
+def shape_variants(v):
+    """other values of the SAME JSON type for a string of the document, derived from the value itself: the shapes
+    an identifier / time stamp / name can take (upper case, braces, urn:, without separators, reversed, padded,
+    cut, doubled) and the string literals that are new in the source tree under check"""
+    from gen import srcdict
+    out = [v.upper(), "{" + v + "}", "urn:uuid:" + v, v.replace("-", "").replace(":", ""), v[::-1], v + " ", " " + v,
+           v[:len(v) // 2], v + v]
+    out += srcdict.words(novel_only=True)[:6]
+    return [x for x in dict.fromkeys(out) if x != v]
+
+
+def junk_faults():
     cur = cr.cl()["CUR"]
     faults = [["bytes", t.decode("latin-1").replace("0.18.1", cur)] for t in cr.JUNK]
+    # top-level JSON values of every type, empty and not, also ones that CONTAIN the names of the document's keys
+    faults += [["bytes", t] for t in ("false", "0", "-1", "2.5", "1e9", "\"version\"", "[\"version\"]", "[\"version\", \"uuid\", \"root\", \"codebase\"]",
+                                      "[{}]", "[[]]", "{\"codebase\": null}", "{\"codebase\": []}", " null ", "\xef\xbb\xbfnull", "\xef\xbb\xbf{}")]
     faults += [["bytes", "{\"version\": \"%s\", \"uuid\": \"u\", \"root\": \"/\", \"codebase\": {\"files\": {\"a.py\": %s}}}" % (cur, e)]
                for e in ("null", "[]", "{}", "\"x\"", "{\"checksum\": \"x\", \"language\": \"Python\", \"loc\": 1}")]
-    for path, v in json_paths(doc):
+    return faults
+
+
+def tagged_faults(doc):
+    """every fault of stream (2), generated from the document itself -> [(class, index of the member, fault)]:
+    class "junk" (whole-file texts), "type" (a key removed, a value of another JSON type), "same" (a value of the
+    same JSON type: other shapes of a string, numbers beyond every range / fractional / NaN ...)"""
+    out = [("junk", -1, f) for f in junk_faults()]
+    for n, (path, v) in enumerate(json_paths(doc)):
         if isinstance(path[-1], str):
-            faults.append(["jdel", path])
+            out.append(("type", n, ["jdel", path]))
         for o in OTHER_VALUES:
             if jtype(o) != jtype(v) or (isinstance(v, int) and isinstance(o, float)):
-                faults.append(["jset", path, o])
-    return faults
+                out.append(("type", n, ["jset", path, o]))
+        if isinstance(v, str):
+            out += [("same", n, ["jset", path, o]) for o in shape_variants(v)]
+        if is_number(v):
+            out += [("same", n, ["jset", path, o]) for o in EXTREME_NUMBERS if o != v]
+            out += [("same", n, ["jraw", path, t]) for t in RAW_NUMBERS]
+    return out
+
+
+def structural_faults(doc):
+    return [f for _c, _n, f in tagged_faults(doc)]
+
+
+def is_number(v):
+    return isinstance(v, (int, float)) and not isinstance(v, bool)
+
+
+def pair_values(v):
+    """the short pool of replacement values used when SEVERAL fields are faulted at once (as fault operations)"""
+    if is_number(v):
+        return [("jset", 10 ** 400), ("jset", 2.5), ("jset", -1), ("jraw", "1e400"), ("jraw", "NaN"), ("jset", "x"), ("jset", None)]
+    if isinstance(v, str):
+        return [("jset", None), ("jset", 7), ("jset", ""), ("jset", v.upper() if v.upper() != v else v + " ")]
+    return [("jset", None), ("jset", 7), ("jset", [] if not isinstance(v, list) else {})]
+
+
+def homologous_pairs(doc):
+    """pairs of fields that sit at corresponding places of the document: paths of equal length that differ in
+    exactly one component (the same key of two file entries / two languages / two folders, the same member of two
+    measurements, two elements of one list) - the fields a reader adds up or compares with each other"""
+    leaves = [(p, v) for p, v in json_paths(doc) if not isinstance(v, (dict, list))]
+    groups = {}
+    for p, v in leaves:
+        for i in range(len(p)):
+            groups.setdefault((len(p), i, tuple(p[:i]), tuple(p[i + 1:])), []).append((p, v))
+    out = []
+    for g in groups.values():
+        for a in range(len(g)):
+            for b in range(a + 1, len(g)):
+                out.append((g[a], g[b]))
+    return out
+
+
+def multi_faults(doc, rnd, thorough):
+    """documents with two or three simultaneous field faults -> lists of fault operations:
+    (a) every homologous pair of fields x combinations of the short value pool (quick: one combination per pair,
+    rotating, and for two numbers always the pairs "beyond every range" / "fractional" for two numbers; thorough: all),
+    (b) random pairs and triples of arbitrary members / elements with values from the whole single-fault pool"""
+    out = []
+    for n, ((p, v), (q, w)) in enumerate(homologous_pairs(doc)):
+        combos = [(x, y) for x in pair_values(v) for y in pair_values(w)]
+        if not thorough:
+            combos = [combos[(n * 5 + 3) % len(combos)]] + \
+                     ([combos[1], combos[len(pair_values(w))]] if is_number(v) and is_number(w) else [])
+        for (k1, x), (k2, y) in combos:
+            out.append([[k1, p, x], [k2, q, y]])
+    single = [f for f in structural_faults(doc) if f[0] in ("jset", "jraw", "jdel")]
+    for _ in range(4000 if thorough else 120):
+        out.append([rnd.choice(single) for _ in range(rnd.choice([2, 2, 3]))])
+    return out
 
 
 CONTENTS = cr.PLAIN * 3 + cr.DENSE + [7, 8]     # the 10^6 rung is C09's business (cost)
@@ -178,8 +283,10 @@ def gen_fault_history(rnd, paths, maxlen, names=None):
             ops.append(["bytes", rnd.choice(cr.JUNK).decode("latin-1")])
         elif r < 0.59:
             ops.append(["jdel", rnd.choice(paths)])
+        elif r < 0.65:
+            ops.append(["jset", rnd.choice(paths), rnd.choice(OTHER_VALUES + EXTREME_NUMBERS)])
         elif r < 0.67:
-            ops.append(["jset", rnd.choice(paths), rnd.choice(OTHER_VALUES)])
+            ops.append(["jraw", rnd.choice(paths), rnd.choice(RAW_NUMBERS)])
         elif r < 0.74:
             mode = rnd.randrange(3)
             ops.append(["ks", mode, rnd.randrange(6) if mode == 2 else rnd.choice([rnd.randrange(100), rnd.randrange(1000), rnd.randrange(5000)])])
@@ -189,8 +296,10 @@ def gen_fault_history(rnd, paths, maxlen, names=None):
             ops.append(["cold", rnd.randrange(10), rnd.randrange(2)])
         elif r < 0.79:
             ops.append(["cmv"])
-        elif r < 0.80:
+        elif r < 0.795:
             ops.append(["cfg", rnd.randrange(cr.CFGS)])
+        elif r < 0.80:
+            ops += [["ent", 1], ["s"], ["ent", 0]]
         elif r < 0.85:
             ops.append(["ca", rnd.choice([0, 2, 3, 4]), rnd.randrange(4), rnd.randrange(cr.NCONTENT + 1), rnd.choice([0, 1000])])
         elif r < 0.88:
@@ -202,7 +311,8 @@ def gen_fault_history(rnd, paths, maxlen, names=None):
         else:
             ops.append(["cj", 1])
     ops += [["s"], ["s"]]
-    return {"init": [list(x) for x in init], "excl": 0, "cfg": rnd.choice([0, 0, 1, 2, 3]), "ops": ops}
+    return dict({"init": [list(x) for x in init], "excl": 0, "cfg": rnd.choice([0, 0, 1, 2, 3]), "ops": ops},
+                **({"entry": 1} if rnd.random() < 0.02 else {}))
 
 
 def _chunks(l, n):
@@ -241,18 +351,53 @@ def _correspond_main(ctx):
         for ch in _chunks([[["trunc", n], ["s"], ["s"]] for n in offs_large], 24):
             tasks.append((LARGE, 0, [["s"]], ch, k))
     # (2) structural faults, under every configuration (the repository adds keys to the document)
+    # quick tier: the same-type values (shapes of strings, extreme numbers) of a member under ONE of the configurations
     n_faults = {}
     for k in cfgs:
-        faults = structural_faults(json.loads(medium[k].decode()))
+        faults = [f for c, n, f in tagged_faults(json.loads(medium[k].decode())) if ctx.thorough or c != "same" or n % len(cfgs) == k]
         n_faults[k] = len(faults)
         for ch in _chunks([[f, ["s"], ["s"]] for f in faults], 16):
             tasks.append((MEDIUM, 0, [["s"]], ch, k))
+    # (2b) the same faults observed where users start a scan: the function typer calls for `codelimit scan`
+    # (Configuration.load, logging, repository detection, whatever the command line layer does before
+    # scan_command) in a forked child, alternately without / with -v; the scan after it is a library scan
+    # (a forked child with two git calls costs 0.1 s: the quick tier takes the junk texts, the faults on the top-level
+    # members and every tenth of the others, rotating with VERIF_SEED)
+    tf = tagged_faults(json.loads(medium[0].decode()))
+    rot = common.seed() % 10
+    cli1 = [f for i, (c, n, f) in enumerate(tf) if ctx.thorough or c == "junk" or len(f[1]) == 1 or i % 10 == rot]
+    n_cli = {"entry_function": 0, "fresh_interpreter": 0, "truncations_entry_function": 0, "several_fields_at_once": 0}
+    for v in (0, 1):
+        part = [[f, ["s"], ["ent", 0], ["s"]] for i, f in enumerate(cli1) if ctx.thorough or i % 2 == v]
+        n_cli["entry_function"] += len(part)
+        for ch in _chunks(part, 24):
+            tasks.append((MEDIUM, 0, [["s"]], ch, v, 1))
+    offs = list(range(len(small[0]) + 1)) if ctx.thorough else sorted(set(range(common.seed() % 25, len(small[0]) + 1, 25)) | {0, len(small[0]) - 1, len(small[0])})
+    n_cli["truncations_entry_function"] = len(offs)
+    for ch in _chunks([[["trunc", n], ["s"], ["ent", 0], ["s"]] for n in offs], 6):
+        tasks.append((SMALL, 0, [["s"]], ch, 0, 1))
+    # (2c) ... and as `python -m codelimit scan [-v] <root>` in a fresh interpreter (a second each): the junk texts
+    # (quick tier: every second one, alternating with VERIF_SEED) and, for the top-level members, removal and values of other JSON types (thorough: every fault)
+    top = [f for i, (c, n, f) in enumerate(tf) if ctx.thorough or (c == "junk" and i % 2 == common.seed() % 2)
+           or (c == "type" and len(f[1]) == 1 and (f[0] == "jdel" or f[2] in (None, 7, "x", [])))]
+    part = [[f, ["s"], ["ent", 0], ["s"]] for f in top]
+    n_cli["fresh_interpreter"] = len(part)
+    for j, ch in enumerate(_chunks(part, 32)):
+        tasks.append((MEDIUM, 0, [["s"]], ch, j % 2, 2))
+    # (2d) two or three fields faulted at once, on the four-file cache (two files of one language, two folders)
+    mf = multi_faults(json.loads(large.decode()), ctx.rng("multi-faults"), ctx.thorough)
+    for j, ch in enumerate(_chunks([fs + [["s"], ["s"]] for fs in mf], 40)):
+        tasks.append((LARGE, 0, [["s"]], ch, j % cr.CFGS if ctx.thorough else 0))
+    n_cli["several_fields_at_once"] = len(mf)
     # (3) the cache directory
     dirv = [[["cm"], ["s"], ["s"]], [["cm"], ["M"], ["s"], ["s"]], [["M"], ["s"], ["s"]], [["D"], ["s"], ["s"]],
             [["M"], ["trunc", 40], ["s"], ["M"], ["cm"], ["s"]], [["D"], ["bytes", "junk"], ["s"], ["s"]]]
     for k in cfgs:
         tasks.append((MEDIUM, 0, [["s"]], dirv, k))
         tasks.append(([], 0, [], dirv, k))
+    tasks.append((MEDIUM, 0, [["s"]], dirv, 0, 1))
+    tasks.append(([], 0, [], dirv, 1, 1))
+    tasks.append((MEDIUM, 0, [["s"]], dirv[:4] if not ctx.thorough else dirv, 1, 2))
     # (5) what crashed or concurrent runs leave behind
     left = leftovers(MEDIUM)
     names = cr.EXTRA_NAMES + [n for n in left if n not in cr.EXTRA_NAMES]
@@ -271,6 +416,7 @@ def _correspond_main(ctx):
         for ch in _chunks(part, 4):
             tasks.append((MEDIUM, 0, [["s"]], ch, k))
     recs = [r for part in cr.pool_map(cr.run_variants, tasks) for r in part]
+    recs = cr.run_histories(REGRESS) + recs          # the regress corpus first
     # (4) random fault histories
     rnd = ctx.rng("fault-histories")
     jpaths = [p for p, _ in json_paths(json.loads(probe(LARGE, 2).decode()))]
@@ -281,7 +427,7 @@ def _correspond_main(ctx):
     # every fault must be followed by a scan that analyses everything or reuses an honest rest,
     # and by a second scan that reuses everything (the cache left behind is complete)
     for r in recs:
-        if r.get("forged") or len(r["real"]) < 2 or r["input"]["ops"][-2:] != [["s"], ["s"]]:
+        if r.get("forged") or len(r["real"]) < 2 or [op for op in r["input"]["ops"] if op[0] not in ("ent", "cfg")][-2:] != [["s"], ["s"]]:
             continue
         last = r["real"][-1]
         if last is not None and len(last) == 5 and last[2]:
@@ -312,13 +458,23 @@ def _correspond_main(ctx):
     nscans = sum(sum(1 for o in r["real"] if o is not None) for r in recs + rrecs)
     forged = sum(1 for r in recs + rrecs if r.get("forged"))
     per_cfg = {str(k): sum(1 for r in recs + rrecs if r["input"].get("cfg", 0) == k) for k in cfgs}
+    per_entry = {}
+    for r in recs + rrecs:
+        e = r["input"].get("entry", 0)
+        for op in r["input"]["ops"]:
+            if op[0] == "ent":
+                e = op[1]
+            elif op[0] == "s":
+                per_entry[str(e)] = per_entry.get(str(e), 0) + 1
     fails = _shrunk(fails)
     return {
         "evaluations": nscans,
-        "distinct_nontrivial": len(set(json.dumps([r["input"].get("cfg", 0), r["input"]["ops"]]) for r in recs + rrecs)),
-        "rule": "truncation of the cache file at every byte offset of a one-file cache (%s bytes under the 4 configurations default / verbose / repository / both) and at %d %s offsets of a four-file cache (%d bytes%s); structural faults on a two-file cache under each configuration (%s: junk texts, every key removed at every level, every member/element replaced by %d values of other JSON types incl. empty ones); cache directory without file / markers / removed, under each configuration; %d scans really stopped in a child process (RLIMIT_FSIZE at %s byte counts with SIGXFSZ killing / EFBIG raised, SIGKILL before the k-th file-system modification, k < 6, and both in a row) from 3 states (never scanned, cache of an older tree, cache up to date) over the 4 configurations; %d histories with an extra file in the cache directory (%d names = 5 stems x 10 suffixes + %d names stopped scans really left: %s), cache files with old / future mtimes (10^k s), cache directory renamed away; %d random histories of faults (incl. stopped scans, extra files, mtimes), edits, configuration switches and scans of length <= 16; after each fault two scans (repairing scan, then a scan that must reuse everything); %d scans in total; forged (outside the property) histories skipped: %d" % (
+        "distinct_nontrivial": len(set(json.dumps([r["input"].get("cfg", 0), r["input"].get("entry", 0), r["input"]["ops"]]) for r in recs + rrecs)),
+        "rule": "truncation of the cache file at every byte offset of a one-file cache (%s bytes under the 4 configurations default / verbose / repository / both) and at %d %s offsets of a four-file cache (%d bytes%s); structural faults on a two-file cache under each configuration (%s: junk texts, every key removed at every level, every member/element replaced by %d values of other JSON types incl. empty ones, every string by the other shapes of the same value: upper case, braces, urn:, without separators, reversed, padded, cut, doubled, every number by 10^400, -10^400, 2^63, -1, 2.5 and the JSON texts 1e400, -1e400, NaN, Infinity, -Infinity); %d documents with two or three fields faulted at once on the four-file cache (every pair of fields at corresponding places - same key of two files / languages / folders / measurements, two elements of a list - x value combinations incl. beyond-range integer with fraction, plus random pairs and triples); %d regress histories first; the same faults through the function behind `codelimit scan` (codelimit.__main__.scan in a forked child, without / with -v: %d faults - quick tier: junk texts, top-level members, every tenth of the rest - %d truncation offsets) and through `python -m codelimit scan` in a fresh interpreter (%d: junk texts incl. top-level values of every JSON type, top-level members removed / of other JSON types%s); after every scan the cache left behind is compared FIELD BY FIELD with the cache a from-scratch scan of a copy writes (same keys at every level, same JSON types, same values; identifier and time stamp of the writer's shape); cache directory without file / markers / removed, under each configuration; %d scans really stopped in a child process (RLIMIT_FSIZE at %s byte counts with SIGXFSZ killing / EFBIG raised, SIGKILL before the k-th file-system modification, k < 6, and both in a row) from 3 states (never scanned, cache of an older tree, cache up to date) over the 4 configurations; %d histories with an extra file in the cache directory (%d names = 5 stems x 10 suffixes + %d names stopped scans really left: %s), cache files with old / future mtimes (10^k s), cache directory renamed away; %d random histories of faults (incl. stopped scans, extra files, mtimes), edits, configuration switches and scans of length <= 16; after each fault two scans (repairing scan, then a scan that must reuse everything); %d scans in total; forged (outside the property) histories skipped: %d" % (
             "/".join(str(len(small[k])) for k in cfgs), len(offs_large), "(all)" if ctx.thorough else "stratified (every 5th, around every line break, the last three)", len(large),
             " under each configuration" if ctx.thorough else "", "/".join(str(n_faults[k]) for k in cfgs), len(OTHER_VALUES),
+            n_cli["several_fields_at_once"], len(REGRESS),
+            n_cli["entry_function"], n_cli["truncations_entry_function"], n_cli["fresh_interpreter"], ", all others" if ctx.thorough else "",
             n_stop, "all" if ctx.thorough else "stratified (around the sizes of the marker files and of the cache file, every 97th between)",
             len(lv), len(names), len(left), left, nrand, nscans, forged),
         "samples": [{"request": r["request"][:300], "real_last_scan": str(r["real"][-1])[:200]} for r in (recs[3:5] + recs[-2:] + rrecs[:2])],
@@ -327,7 +483,8 @@ def _correspond_main(ctx):
                          "fault_class_seen_by_model": classes, "random_histories": nrand,
                          "stopped_scans": n_stop, "histories_with_stopped_scans": stopped,
                          "extra_file_mtime_rename_histories": len(lv), "leftover_names_discovered": left,
-                         "histories_per_configuration": per_cfg,
+                         "histories_per_configuration": per_cfg, "faults_through_the_command_line": n_cli,
+                         "scans_per_observation_point": per_entry,
                          "oracle_only_histories": sum(1 for r in recs + rrecs if r.get("oracle_only"))},
         "disagreements": dis[:50], "oracle_failures": fails[:50],
     }
